@@ -62,10 +62,12 @@ type scenario struct {
 	// Depth 2: crash points inside the recovery run are recovered again.
 	Depth int
 	// FlakyRecovery: the downstream of a depth-1 recovery run (only when it is
-	// itself recorded for depth 2) fails the first attempt of the first
-	// pending recipient of every message temporarily, so that the recovery
-	// run rewrites metadata and begins later attempts of its own.
-	FlakyRecovery bool
+	// itself recorded for depth 2) misbehaves in the first attempt of every
+	// message, so that the recovery run rewrites metadata, emits reports and
+	// begins later attempts of its own: 0 = all ok, 1 = first pending recipient
+	// fails temporarily, 2 = first pending recipient fails permanently,
+	// 3 = first temporarily and second permanently.
+	FlakyRecovery int
 }
 
 func (s *scenario) msg(id string) *msgSpec {
@@ -199,13 +201,14 @@ func baseScenario(idx, n int) *scenario {
 	case 1:
 		s.Name = "1msg-3rcpt-ok"
 		s.Msgs = []*msgSpec{mk(idx, 0, 3, fateCommit, nil, nil)}
+		s.FlakyRecovery = 2
 	case 2:
 		s.Name = "1msg-1rcpt-temp-then-ok"
 		s.Msgs = []*msgSpec{mk(idx, 0, 1, fateCommit, [][]string{{T}}, nil)}
 	case 3:
 		s.Name = "1msg-2rcpt-one-ok-one-temp-then-ok"
 		s.Msgs = []*msgSpec{mk(idx, 0, 2, fateCommit, [][]string{{}, {T}}, nil)}
-		s.FlakyRecovery = true
+		s.FlakyRecovery = 1
 	case 4:
 		s.Name = "1msg-1rcpt-permanent-report"
 		s.Msgs = []*msgSpec{mk(idx, 0, 1, fateCommit, [][]string{{P}}, nil)}
@@ -233,7 +236,7 @@ func baseScenario(idx, n int) *scenario {
 			mk(idx, 2, 1, fateAbortAfterBody, nil, nil),
 		}
 		s.Msgs[1].RcptStage = mx.StStatus
-		s.FlakyRecovery = true
+		s.FlakyRecovery = 3
 	case 10:
 		s.Name = "max-tries-exhausted-report"
 		s.MaxTries = 2
@@ -263,7 +266,7 @@ var seqPool = [][]string{{}, {}, {mx.Temp}, {mx.Temp}, {mx.Temp, mx.Temp}, {mx.P
 // randomScenario perturbs the shapes: 1-3 messages x 1-3 recipients, random
 // outcome sequences, fates, stages, partial mode, gate, content sizes.
 func randomScenario(idx int, p *prng.R, thorough bool) *scenario {
-	s := &scenario{Name: "perturbed", MaxTries: prng.Pick(p, []int{2, 3, 5}), Depth: 2, Partial: p.Bool(), FlakyRecovery: p.Bool()}
+	s := &scenario{Name: "perturbed", MaxTries: prng.Pick(p, []int{2, 3, 5}), Depth: 2, Partial: p.Bool(), FlakyRecovery: p.Intn(4)}
 	n := p.Range(1, 3)
 	committed := false
 	for k := 0; k < n; k++ {
